@@ -11,6 +11,7 @@ import collections
 import importlib
 import json
 import logging
+import re
 import warnings
 
 import numpy as np
@@ -19,6 +20,7 @@ import pandas as pd
 from harness.common import Check, args, emit
 from harness.datasets import scratch, small_df, make_ds
 from harness._c01_oracle import oracle_q_fast
+from harness import _c11_large as large
 
 warnings.filterwarnings("ignore")
 logging.disable(logging.CRITICAL)
@@ -46,6 +48,13 @@ def anchors(scores, targets, eval_fdr, float32_q=False):
     """(t, d): t = lowest score among targets with q <= eval_fdr (None if there is none), d = decoy median.
     float32_q=True rounds the q-values to float32 first; it is only used to NAME a mismatch that is explained
     by the float32 threshold comparison reported under C01."""
+    if len(scores) >= large.LARGE:                                     # same doubles from one sort (see _c11_large)
+        sc, tg = np.asarray(scores, dtype=float), np.asarray(targets, dtype=bool)
+        q = large.q_doubles(sc, tg)
+        if float32_q:
+            q = q.astype(np.float32).astype(float)
+        acc = sc[tg & (q <= float(eval_fdr))]
+        return (float(acc.min()) if len(acc) else None), large.median(sc[~tg])
     q = [float(x) for x in oracle_q_fast(scores, targets, True)]       # nearest doubles of the exact q-values
     if float32_q:
         q = [float(np.float32(x)) for x in q]
@@ -735,10 +744,17 @@ def _recover_folds(files, done, folds):
     return out
 
 
+def _table(cfg, seed_shift=0, n_feat=2):
+    """the table of a run: small_df, or (cfg['big']) the loop-free table with random labels of _c11_large.big_df"""
+    if cfg.get("big"):
+        return large.big_df(cfg["n_spec"], cfg["data_seed"] + seed_shift, n_feat=n_feat)
+    return small_df(n_spec=cfg["n_spec"], dup=2, seed=cfg["data_seed"] + seed_shift, n_feat=n_feat)
+
+
 def _est_case(cfg, d):
     """Run brew once with the estimator kind of cfg. Returns (df, outcome, fitted fold models)"""
     brew_mod = importlib.import_module("mokapot.brew")
-    df = small_df(n_spec=cfg["n_spec"], dup=2, seed=cfg["data_seed"])
+    df = _table(cfg)
     if cfg.get("round"):
         df["f0"] = np.round(df["f0"] * 4) / 4
     ds = make_ds(df, d / ("e%d.%s" % (cfg["k"], cfg["fmt"])))
@@ -1026,11 +1042,10 @@ def _reset_case(cfg, d):
     (computed before brew runs), outcome, the fold copies brew trained, what pre-training selected as best feature)
     or None when pre-training failed."""
     brew_mod = importlib.import_module("mokapot.brew")
-    df = small_df(n_spec=cfg["n_spec"], dup=2, seed=cfg["data_seed"], n_feat=cfg["n_feat"])
+    df = _table(cfg, 0, cfg["n_feat"])
     if cfg.get("round"):
         df["f0"] = np.round(df["f0"] * 4) / 4
-    pre = df if cfg["pre"] == "same" else small_df(n_spec=cfg["n_spec"], dup=2, seed=cfg["data_seed"] + 1,
-                                                    n_feat=cfg["n_feat"])
+    pre = df if cfg["pre"] == "same" else _table(cfg, 1, cfg["n_feat"])
     same = pre is df
     df = _direct(df, cfg.get("best"))
     pre = df if same else _direct(pre, cfg.get("best"))
@@ -1250,6 +1265,187 @@ def check_reset_path(tier, seed):
 
 
 # ----------------------------------------------------------------------------------------------------------
+# (f) LARGE folds and collections: thousands to tens of thousands of decoys, even and odd counts
+# ----------------------------------------------------------------------------------------------------------
+LARGE_FDRS = (0.01, 0.05, 0.1, 0.02)
+LARGE_MODES = ("continuous", "ties", "continuous", "negative", "continuous", "small-scale")
+
+
+def _parity(n_decoys):
+    return "even" if n_decoys % 2 == 0 else "odd"
+
+
+def _large_direct_params(tier, seed):
+    rng = np.random.default_rng(seed + 5000)
+    out = []
+    for k, nd in enumerate(large.decoy_counts(tier, rng)):
+        ratio = [1.0, 0.5, 2.0, 1.0][k % 4] if nd <= 40000 else 0.5
+        nt = max(400, int(nd * ratio) + int(rng.integers(-50, 51)))
+        out.append({"part": "direct", "k": k, "nd": int(nd), "nt": nt, "gen": int(rng.integers(1 << 30)),
+                    "mode": LARGE_MODES[k % len(LARGE_MODES)], "fdr": LARGE_FDRS[(k // 2) % len(LARGE_FDRS)],
+                    "where": "ondisk" if k % 4 == 1 else "module"})
+    return out
+
+
+def _large_direct(p, d):
+    """one direct call on a large vector. Returns (class id or None, what, in_domain, non-trivial)"""
+    scores, lab = large.direct_case(p)
+    outcome = _call_module(scores, lab, p["fdr"]) if p["where"] == "module" else _call_ondisk(scores, lab, p["fdr"], d, p["k"])
+    cid, what, in_dom = judge(scores, lab, p["fdr"], outcome)
+    nontriv = False
+    if in_dom and outcome[0] == "ok":
+        acc = lab & (large.q_doubles(scores, lab) <= p["fdr"])
+        nontriv = bool(acc.any() and (lab & ~acc).any())
+    if cid:
+        cid = ("ondisk:" if p["where"] == "ondisk" else "") + "large-%s-decoys:%s" % (_parity(p["nd"]), cid)
+        what = "%d decoys, %d targets (%s): %s" % (p["nd"], p["nt"], p["where"], what)
+    return cid, what, in_dom, nontriv
+
+
+def _large_brew_configs(tier, seed):
+    rng = np.random.default_rng(seed + 50005)
+    n = 6 if tier == "quick" else 60
+    kinds = ("decision", "sk-linsvc", "both", "sk-logreg")
+    cfgs = []
+    for k in range(n):
+        folds = 2 + k % 2 if tier == "quick" else 2 + k % 5
+        per_fold = int(rng.integers(5200, 8001)) if k % 3 else int(rng.integers(4960, 5041))   # every 3rd: around 5000
+        kind = kinds[k % len(kinds)]
+        cfgs.append({"part": "brew", "k": k, "big": True, "kind": kind, "n_spec": folds * per_fold + int(rng.integers(0, folds)),
+                     "data_seed": int(rng.integers(1 << 30)), "rng": int(rng.integers(1 << 30)), "folds": folds,
+                     "test_fdr": [0.05, 0.01, 0.1][k % 3], "fmt": "parquet" if k % 2 else "tsv",
+                     "chunk": [None, 2, 3][(k // 2) % 3], "workers": 1 + (k % 5 == 4), "max_iter": 1 + (k % 4 == 3),
+                     "scaler": "standard" if kind.startswith("sk-") else "as-is", "gain": [1.0, 0.01, 30.0][(k // 2) % 3],
+                     "round": False})
+    return cfgs
+
+
+def _large_reset_configs(tier, seed):
+    rng = np.random.default_rng(seed + 500050005)
+    n = 8 if tier == "quick" else 60
+    cfgs = []
+    for k in range(n):
+        fdr = [0.1, 0.05, 0.15, 0.2][k % 4]
+        cfgs.append({"part": "reset", "k": k, "big": True, "mode": ("weak", "flip", "blind", "some")[k % 4],
+                     "n_spec": int(rng.integers(5100, 9001)) if k % 3 else int(rng.integers(4960, 5041)),
+                     "n_feat": 3 + k % 3, "data_seed": int(rng.integers(1 << 30)), "rng": int(rng.integers(1 << 30)),
+                     "folds": 2 + k % 3, "test_fdr": fdr, "train_fdr": min(fdr, 0.1), "pre": "other" if k % 4 == 2 else "same",
+                     "files": 1, "cut": 50, "fmt": "parquet" if k % 2 else "tsv", "chunk": [None, 2, 3][k % 3],
+                     "workers": 1, "max_iter": 1, "scaler": "standard" if k % 5 == 3 else "as-is",
+                     "gain": [1.0, 0.01, 30.0][k % 3], "round": False})
+    return cfgs
+
+
+def _fold_decoys(df, fitted, folds):
+    """decoy count of every fold (rows a trained fold model was not trained on), [] if the folds are not recovered"""
+    done = [m for m in fitted if getattr(m, "fit_done_", False)]
+    if len(done) != folds:
+        return []
+    ids_all, lab = df["SpecId"].values, df["Label"].values
+    return [int((lab[np.setdiff1d(ids_all, m.train_ids_)] == -1).sum()) for m in done]
+
+
+def _large_brew(cfg, d):
+    df, outcome, fitted = _est_case(cfg, d)
+    vio, n_dom, _ = _judge_est(cfg, df, outcome, fitted)
+    return [("large-folds:" + cid, what) for cid, what in vio], n_dom, _fold_decoys(df, fitted, cfg["folds"])
+
+
+def _large_reset(cfg, d):
+    case = _reset_case(cfg, d)
+    vio, path, dom = _judge_reset(cfg, case)
+    n_dec = [] if case is None else [int((df["Label"].values == -1).sum()) for df, _ in case[0]]
+    return [("large-collection:" + cid, what) for cid, what in vio], path, dom, n_dec
+
+
+def check_large_folds(tier, seed):
+    direct = _large_direct_params(tier, seed)
+    brews = _large_brew_configs(tier, seed)
+    resets = _large_reset_configs(tier, seed)
+    ck = Check(
+        "large_folds", "mokapot.dataset.calibrate_scores, mokapot.dataset.OnDiskPsmDataset.calibrate_scores (direct calls), "
+        "mokapot.brew.brew (per fold and reset path) on folds / collections with thousands of decoys",
+        "direct calls: %d score vectors (seed %d; every 4th through the on-disk method on a Parquet/TSV file, the others "
+        "through the module-level function) with a decoy count from: the round numbers and powers of two %s, 2^p -1 / +1 "
+        "for p = 10..15, %d seeded-random counts in 1000..40000 taken even and odd in turn%s; targets 0.5x / 1x / 2x the "
+        "decoys +-50 (45 %% of them shifted by 3 sd), scores continuous / rounded to 2 decimals (ties, also at the median) "
+        "/ shifted by -50 / on scale 0.01, eval_fdr in %s, desc=True. brew: %d runs on loop-free on-disk tables (two PSMs "
+        "per spectrum, each PSM a decoy with probability 1/2) of folds x 5200..8000 spectra (every 3rd run: folds x "
+        "4960..5040, folds just below and above 5000 decoys), folds 2..%d, estimators decision / both / sklearn LinearSVC "
+        "/ LogisticRegression (sklearn: StandardScaler), test_fdr in {0.05, 0.01, 0.1}, predictions in 1..3 row chunks. "
+        "reset path: %d runs of check reset_path's history (one pre-trained model whose re-training degrades by mode weak / "
+        "flip / blind / some) on ONE loop-free table of 5100..9000 (every 3rd: 4960..5040) spectra, folds 2..4"
+        % (len(direct), seed, list(large.ROUND), 16 if tier == "quick" else 400,
+           ", and 65536" if tier == "quick" else ", and 50000, 65535, 65536, 65537, 99999, 100000, 100001, 131072",
+           list(LARGE_FDRS), len(brews), 3 if tier == "quick" else 6, len(resets)),
+        "same oracle as the other checks: t = lowest score among the targets with exact q <= eval_fdr (the doubles of the exact "
+        "rational q-values, obtained from integer counts after ONE sort for vectors of %d rows or more - checked equal "
+        "to the C01 oracle on small vectors), d = the decoy median (middle element, for an even count the mean of the two "
+        "middle elements), expected (s - t)/(t - d): 0 at t, -1 at d, strictly increasing; direct-call vectors are "
+        "re-created from their parameters (decoys, targets, generator seed, mode) in a replay; brew runs are judged per fold as in "
+        "per_fold_estimators, reset runs over the whole collection as in reset_path; case ids carry 'large-even-decoys' / "
+        "'large-odd-decoys' (direct calls), 'large-folds' (brew) or 'large-collection' (reset path); non-trivial = in the "
+        "domain (t > d) with some but not all targets accepted (direct), all folds in the domain (brew), a reset-path run "
+        "in the domain" % large.LARGE)
+    # the one-sort q-values are the C01 oracle's doubles (self-test on small tie-heavy vectors)
+    rng = np.random.default_rng(seed + 50)
+    for k in range(40):
+        s_, l_, _ = _gen_case(rng, k)
+        if not np.array_equal(large.q_doubles(s_, l_), np.array([float(x) for x in oracle_q_fast(s_, l_, True)])):
+            raise AssertionError("harness bug: one-sort q-values differ from the C01 oracle")
+    seen = set()
+    st = collections.Counter()
+    found = collections.OrderedDict((part, []) for part in ("module", "ondisk", "brew", "reset"))
+
+    def report(cid, what, inp):
+        # one record per class; for brew runs the estimator kind stays in the id but does not make a new class
+        key = re.sub(r"estimator-[a-z0-9-]+:", "", cid)
+        if key not in seen:
+            seen.add(key)
+            found[inp["where"] if inp["part"] == "direct" else inp["part"]].append((cid, what, inp))
+
+    with scratch("c11f_") as d:
+        for p in direct:
+            cid, what, in_dom, nontriv = _large_direct(p, d)
+            ck.case(p, nontrivial=nontriv)
+            st["direct_%s_%s" % (_parity(p["nd"]), "5000+" if p["nd"] >= 5000 else "below")] += bool(in_dom)
+            if cid:
+                report(cid, what, p)
+        for cfg in brews:
+            vio, n_dom, n_dec = _large_brew(cfg, d)
+            ck.case(cfg, nontrivial=n_dom == cfg["folds"] and not vio)
+            st["brew_folds_in_domain"] += n_dom
+            for c in n_dec:
+                st["brew_fold_%s_%s" % (_parity(c), "5000+" if c >= 5000 else "below")] += 1
+            for cid, what in vio:
+                report(cid, what, cfg)
+        for cfg in resets:
+            vio, path, dom, n_dec = _large_reset(cfg, d)
+            ck.case(cfg, nontrivial=bool(dom) and path.startswith("reset") and not vio)
+            st["reset_" + path] += 1
+            if path.startswith("reset") and dom:
+                for c in n_dec:
+                    st["reset_coll_%s_%s" % (_parity(c), "5000+" if c >= 5000 else "below")] += 1
+            for cid, what in vio:
+                report(cid, what, cfg)
+    # Check keeps the first five records: take them from the four parts in turn
+    while any(found.values()):
+        for part in found:
+            if found[part]:
+                ck.violation(*found[part].pop(0))
+    ck.rule += "; direct calls in the domain with >= 5000 decoys: %d even / %d odd counts, below 5000: %d even / %d odd; " \
+               "brew folds: %d in the domain, by decoy count >= 5000: %d even / %d odd, below: %d even / %d odd; reset-path " \
+               "runs: %d (every fold worse) + %d (some folds worse), %d re-trained per fold, collections judged with >= 5000 " \
+               "decoys: %d even / %d odd, below: %d even / %d odd" \
+               % (st["direct_even_5000+"], st["direct_odd_5000+"], st["direct_even_below"], st["direct_odd_below"],
+                  st["brew_folds_in_domain"], st["brew_fold_even_5000+"], st["brew_fold_odd_5000+"],
+                  st["brew_fold_even_below"], st["brew_fold_odd_below"], st["reset_reset-all"], st["reset_reset-some"],
+                  st["reset_retrained"], st["reset_coll_even_5000+"], st["reset_coll_odd_5000+"],
+                  st["reset_coll_even_below"], st["reset_coll_odd_below"])
+    return _freeze(ck)
+
+
+# ----------------------------------------------------------------------------------------------------------
 def REPLAY(check_name, violation):
     inp = violation["input"]
     if isinstance(inp, str):
@@ -1281,6 +1477,16 @@ def REPLAY(check_name, violation):
         with scratch("c11r_") as d:
             vio, path, _ = _judge_reset(inp, _reset_case(inp, d))
         return {"violated": bool(vio), "detail": vio, "path": path}
+    if check_name == "large_folds":
+        with scratch("c11r_") as d:
+            if inp["part"] == "direct":
+                cid, what, _, _ = _large_direct(inp, d)
+                return {"violated": cid is not None, "case": cid, "detail": what}
+            if inp["part"] == "brew":
+                vio, _, n_dec = _large_brew(inp, d)
+                return {"violated": bool(vio), "detail": vio, "fold_decoys": n_dec}
+            vio, path, _, n_dec = _large_reset(inp, d)
+            return {"violated": bool(vio), "detail": vio, "path": path, "collection_decoys": n_dec}
     return {"violated": None, "note": "no replay for %s" % check_name}
 
 
@@ -1301,7 +1507,7 @@ def _run_one(job):
     return globals()[name](tier, seed).result()
 
 
-def _run_checks(names, tier, seed, workers=3):
+def _run_checks(names, tier, seed, workers=4):
     """The checks are independent (each seeds its own generators): run them in forked worker processes, longest
     first, and report them in the fixed order of CHECK_ORDER."""
     import multiprocessing as mp
@@ -1313,14 +1519,14 @@ def _run_checks(names, tier, seed, workers=3):
 
 
 CHECK_ORDER = ("check_calibrate", "check_per_fold", "check_per_fold_chunks", "check_per_fold_estimators",
-               "check_reset_path")
+               "check_reset_path", "check_large_folds")
 
 
 if __name__ == "__main__":
     a = args()
     np.random.seed(a.seed)
-    emit(_run_checks(["check_per_fold_chunks", "check_per_fold_estimators", "check_calibrate", "check_per_fold",
-                      "check_reset_path"], a.tier, a.seed),
+    emit(_run_checks(["check_per_fold_chunks", "check_per_fold_estimators", "check_large_folds", "check_calibrate",
+                      "check_per_fold", "check_reset_path"], a.tier, a.seed),
          ["accepted targets are decided by the exact rational q-values of the C01 oracle, rounded to the nearest double "
           "(q <= eval_fdr); a mismatch "
           "explained by tdc's float32 rounding at the threshold gets a case id ending in '(C01)'",
@@ -1346,4 +1552,13 @@ if __name__ == "__main__":
           "in the lower-is-better group the direction pre-training selected for the best feature (Model.best_feat, "
           "Model.desc) is read off the pre-trained model only to COUNT how many runs reach that history, the expected "
           "scores do not depend on it",
+          "large_folds: the decoy median is the textbook one (for an even count the mean of the two middle decoy scores); "
+          "vectors of %d rows or more take their exact q-values from integer counts after one sort instead of the "
+          "quadratic C01 oracle (same doubles, self-tested on small vectors in every run); the direct calls pass "
+          "synthetic score vectors (no model), the brew and reset runs reuse the fold recovery of per_fold_estimators / "
+          "reset_path (training rows captured in Model.fit, model output recomputed from the fitted estimator) on tables "
+          "built without a Python loop; whether a fold ends up with an even or odd number of decoys is left to brew's "
+          "split and only counted; the brew folds hold about 5000..8000 decoys and the reset-path collections at most "
+          "about 9000, larger decoy sets are reached by the direct calls only (up to 65536 decoys quick / 131072 "
+          "thorough); millions of decoys are not covered" % large.LARGE,
           "comparison tolerance %g relative; desc=True only" % TOL])
